@@ -86,7 +86,7 @@ CATALOGUE = [
     V("num-iterations-off-by-one", ["C12"], "break", [(G, "                    ret.num_iterations = i\n", "                    ret.num_iterations = i + 1\n", 1)], "num_iterations"),
     V("solve-sign", ["C03", "C04"], "break", [(G, "dx = spsolve(self._hessian, -self._gradient)", "dx = spsolve(self._hessian, self._gradient)", 1)], "C03-d"),
     V("update-wrong-slice", ["C03"], "break",
-      [(G, "v.pose += dx[v.gradient_index: v.gradient_index + v.pose.COMPACT_DIMENSIONALITY]", "v.pose += dx[v.gradient_index: v.gradient_index + len(v.pose)]", 1)], "update-step"),
+      [(G, "v.pose += dx[v.gradient_index: v.gradient_index + v.pose.COMPACT_DIMENSIONALITY]", "v.pose += dx[v.gradient_index: v.gradient_index + len(v.pose)]", 1)], ["update-step", "update-semantic"]),
     V("update-guard-removed", ["C06"], "break",
       [(G, "                if v.gradient_index in self._fixed_gradient_indices:\n                    continue\n", "", 1)], "C06-d"),
     V("update-guard-flag-twin", ["C06", "C03", "C12"], "twin",
